@@ -227,7 +227,7 @@ class NestGen(F.Gen):
         self.dims = {}
         self.dims.update(self.D1)
         self.dims.update(self.D2)
-        if family.startswith('interchange'):
+        if family.startswith('interchange') or family == 'fusion-permute':
             self.dims.update(self.D3)
         self.temps = ['t1', 't2', 't3']
         self.ro_scalars = ['n', 'm']
@@ -423,6 +423,72 @@ class NestGen(F.Gen):
         prog['meta'] = meta
         return prog
 
+    # ---- fusion of collapse(2|3) nests whose loop variables are named differently / permuted per nest
+    VARPOOL = ['i', 'j', 'l', 'i2', 'j2']
+
+    def fusion_permute(self):
+        """One fusion group of 2-3 perfect nests of depth 2 or 3 over the SAME iteration space (identical bounds
+        per level, so fusing is legal), element-wise on the 2-d / 3-d arrays.  Every nest picks its own
+        loop-variable names; at least one later nest uses a non-identity permutation of the first nest's
+        names (e.g. nest 1 `do j / do i`, nest 2 `do i / do j`), others mix fresh names with names the first
+        nest uses at another level.  Each body stores an expression that is asymmetric in the loop variables
+        (100*outer + inner) into element (v1, v2[, v3]), so a wrong renaming is visible."""
+        rng = self.rng
+        rank = rng.choice([2, 2, 3])
+        pool = ['ic'] if rank == 3 else list(self.D2)
+        E = rng.sample(pool, rng.randint(1, len(pool)))
+        kind = rng.choice(['full', 'full', 'const', 'sym'])
+        rngs = [self.range_for(E, d, kind) for d in range(rank)]
+        nloops = rng.choice([2, 2, 3])
+        gname = rng.choice(['', 'group(g1)'])
+        first = rng.sample(self.VARPOOL, rank)          # names[d] = loop variable of array dimension d
+        forced = rng.randrange(1, nloops)               # this nest permutes the first nest's names
+        body = [self.side_stmt()]
+        all_names = []
+        for li in range(nloops):
+            if li == 0:
+                names = list(first)
+            elif li == forced:
+                names = list(first)
+                while names == first:
+                    rng.shuffle(names)
+            else:
+                r = rng.random()
+                if r < 0.3:
+                    names = list(first)
+                elif r < 0.6:
+                    names = rng.sample(first, rank)
+                else:
+                    names = rng.sample(self.VARPOOL, rank)
+            all_names.append(names)
+            Eloop = [a for a in E if rng.random() < 0.7] or [rng.choice(E)]
+            env = self.env_for(E, rank)
+            env['E'] = Eloop
+            env['RO'] = [a for a in self.dims if a not in E]
+            env['idx'] = {a: names[:len(self.dims[a])] for a in Eloop}
+            env['loopvars'] = list(names)
+            a = rng.choice(Eloop)
+            lhs = el(a, *[V(v) for v in env['idx'][a]])
+            asym = op('sum', op('prod', N(100), V(names[rank - 1])), V(names[0]))
+            if rank == 3:
+                asym = op('sum', asym, op('prod', N(10), V(names[1])))
+            pre = [assign(lhs, asym)]
+            inner = pre + self.ew_block(env, rng.randint(0, 2), 1)
+            if rng.random() < 0.5:
+                inner.append(assign(lhs, op('sum', call('mod', lhs, N(7)), asym)))
+            nest = inner
+            for d in range(rank):
+                nest = [do_(names[d], rngs[d][0], rngs[d][1], nest)]
+            opts = ' '.join(x for x in [gname, f'collapse({rank})'] if x)
+            body += [raw('!$loki loop-fusion ' + opts)] + nest
+            if rng.random() < 0.3:
+                body.append(self.side_stmt())
+        prog = self.kernel(body)
+        prog['meta'] = {'family': 'fusion-permute', 'collapse': rank,
+                        'permuted_nests': sum(1 for nm in all_names[1:] if nm != first and sorted(nm) == sorted(first)),
+                        'shifted_nests': sum(1 for nm in all_names[1:] if any(nm[d] in first and first.index(nm[d]) != d for d in range(rank)))}
+        return prog
+
     # ---- fission
     def fission(self):
         rng = self.rng
@@ -572,7 +638,9 @@ def _affine(name, c):
 
 def gen_nest(rng, family):
     g = NestGen(rng, family)
-    if family.startswith('fusion'):
+    if family == 'fusion-permute':
+        prog = g.fusion_permute()
+    elif family.startswith('fusion'):
         prog = g.fusion()
     elif family.startswith('fission'):
         prog = g.fission()
@@ -586,7 +654,7 @@ def gen_nest(rng, family):
 
 
 C31_GENERAL = ('unroll', 'unroll-select', 'unroll-negpow', 'unroll-exitcycle', 'unroll-loopvar', 'unroll-print', 'split', 'split-steptrunc')
-C31_NEST = ('fusion', 'fusion-mismatch', 'fusion-collapse', 'fission', 'fission-autopromote', 'fission-promote', 'fission-promote-lb',
+C31_NEST = ('fusion', 'fusion-mismatch', 'fusion-collapse', 'fusion-permute', 'fission', 'fission-autopromote', 'fission-promote', 'fission-promote-lb',
             'interchange', 'interchange-project', 'block')
 
 
